@@ -5,6 +5,7 @@ Only property statements live here; every proof assembles lemmas from
 -/
 import OciModel.Ref
 import OciModel.RefLemmas
+import OciModel.Generated.RefPat
 namespace OciModel.Props.C17
 open OciModel.Ref
 
@@ -115,6 +116,23 @@ theorem print_parseRelative_nohost_of_first_not_host (p t d : Bytes) (hp : isRep
 /-- The extra condition is satisfiable (`a/b-c`: first segment `a` is not a host). -/
 example : isRepo exRepo = true ∧ isHost (exRepo.takeWhile (· != cSlash)) = false ∧
     parseRelative (print ⟨[], exRepo, exTag, exDigest⟩) = some ⟨[], exRepo, exTag, exDigest⟩ := by
+  decide
+
+/-! ### Obligations on the regenerated facts
+
+The recognisers `isHost`, `isRepo` and the splitting done by `matchRef` were written by hand as
+the languages of these three regular expressions; the check regenerates the constant-folded
+pattern strings from reference.go on every run. An edit to a regular expression (or to the
+length limits) breaks this obligation and sends the check to the differential search. -/
+
+theorem generated_patterns_ok :
+    OciModel.Generated.RefPat.shapeKnown = true ∧
+    -- SHA-256 of the constant-folded pattern strings the recognisers were written against
+    -- (the strings themselves are in the doc comments of Generated/RefPat.lean)
+    OciModel.Generated.RefPat.referencePatSha256 = "5111aaa33065fdbd98eb97c8ad5355d70916bbcaf49cf2a6f7827ada65ec732d" ∧
+    OciModel.Generated.RefPat.hostPatSha256 = "16195d6a930997f0a3ca17785d5293cc195e461dfbc78bbe0747e01985572e38" ∧
+    OciModel.Generated.RefPat.repoPatSha256 = "b2d434cfc719edcbd427f55b2a0dc45dd6261677d336a16d1ae74b954e8a673d" ∧
+    OciModel.Generated.RefPat.tagMaxLen = "128" ∧ OciModel.Generated.RefPat.repoMaxLen = "255" := by
   decide
 
 end OciModel.Props.C17
